@@ -13,8 +13,6 @@ def stdDebugTrace (name : String) (kind : FieldsKind) (fields : List FieldE) : L
   (if kind == .named then DebugEv.debugStruct name else .debugTuple name) ::
     (fields.map fun f => if kind == .named then DebugEv.namedField f.member f.index else .field f.index) ++ [.finish]
 
-def transparentFields (fields : List FieldE) : List FieldE := fields.filter (·.h.debug.transparent)
-def shownFields (fields : List FieldE) : List FieldE := fields.filter (!·.h.debug.ignore)
 
 /-- no transparent field: the call sequence is the standard derive's on the type with its
 `#[debug(ignore)]` fields deleted -/
